@@ -352,14 +352,22 @@ fn c06(s: &str) -> Option<String> {
     if let Ok(e) = &got { eqck!("Nickname.enforce result is a fixed point", ref_nick_step(e), Ok(e.clone())); }
     None
 }
+// C07 speaks about compare relative to the profile's OWN comparison form: for usernames and OpaqueString that is the
+// library's enforce; for Nickname it is the library's own rules (prepare, additional mapping, case mapping, NFKC)
+// iterated to stability.  A bug inside enforce or inside a rule is therefore not a C07 alarm.
+fn lib_nick_canon(n: &Nickname, s: &str) -> R {
+    let step = |x: &str| -> R { let p = own(n.prepare(x))?; let m = own(n.additional_mapping_rule(p.as_str()))?; let c = own(n.case_mapping_rule(m.as_str()))?; own(n.normalization_rule(c.as_str())) };
+    let mut c = s.to_string();
+    for _ in 0..4 { let t = step(&c)?; if t == c { return Ok(c); } c = t; }
+    Err(Error::Invalid)
+}
 fn c07_pair(a: &str, b_: &str) -> Option<String> {
     let m = UsernameCaseMapped::new(); let p = UsernameCasePreserved::new(); let o = OpaqueString::new(); let n = Nickname::new();
-    if assigned16(a) && assigned16(b_) {
-        eqck!("UsernameCaseMapped.compare", m.compare(a, b_), ref_cmp(ref_user_enforce(a, true), ref_user_enforce(b_, true)));
-        eqck!("UsernameCasePreserved.compare", p.compare(a, b_), ref_cmp(ref_user_enforce(a, false), ref_user_enforce(b_, false)));
-    }
-    eqck!("OpaqueString.compare", o.compare(a, b_), ref_cmp(ref_opaque_enforce(a), ref_opaque_enforce(b_)));
-    eqck!("Nickname.compare", n.compare(a, b_), ref_cmp(ref_stab(&ref_nick_cmp_step, a), ref_stab(&ref_nick_cmp_step, b_)));
+    let got = match guard("compare", || (m.compare(a, b_), p.compare(a, b_), o.compare(a, b_), n.compare(a, b_))) { Ok(g) => g, Err(e) => return Some(e) };
+    eqck!("UsernameCaseMapped.compare vs enforce(a) == enforce(b)", got.0, ref_cmp(own(m.enforce(a)), own(m.enforce(b_))));
+    eqck!("UsernameCasePreserved.compare vs enforce(a) == enforce(b)", got.1, ref_cmp(own(p.enforce(a)), own(p.enforce(b_))));
+    eqck!("OpaqueString.compare vs enforce(a) == enforce(b)", got.2, ref_cmp(own(o.enforce(a)), own(o.enforce(b_))));
+    eqck!("Nickname.compare vs its comparison rules iterated to stability", got.3, ref_cmp(lib_nick_canon(&n, a), lib_nick_canon(&n, b_)));
     None
 }
 fn c08(s: &str) -> Option<String> {
@@ -550,6 +558,13 @@ fn exhaustive(name: &str) -> i32 {
             // discharges the Verus-side axiom `axiom_space_freeform` on the real classification
             if FreeformClass::default().get_value_from_codepoint(0x20) != V::SpecClassPval { println!("{{\"found\":true,\"input\":32,\"detail\":\"U+0020 is not FREE_PVAL\"}}"); return 1; } for cp in (0..=0x10ffffu32).chain([0x110000, 0x110001, 0xffffff, 0x7fffffff, 0x80000000, u32::MAX - 1, u32::MAX]) { n += 1;
             if let Some(d) = c14_cp(cp) { println!("{{\"found\":true,\"input\":{},\"detail\":{}}}", cp, json_str(&d)); return 1; } }
+            println!("{{\"found\":false,\"evaluated\":{}}}", n); 0 }
+        // C01: classification of every scalar value, every surrogate and boundary values above U+10FFFF returns (no panic);
+        // only panics count here, not which value is returned
+        "no_panic_cp" => { let mut n = 0u64; for cp in (0..=0x10ffffu32).chain([0x110000, 0x110001, 0xffffff, 0x7fffffff, 0x80000000, u32::MAX - 1, u32::MAX]) { n += 1;
+            if let Some(d) = c01_cp(cp) { println!("{{\"found\":true,\"input\":{},\"detail\":{}}}", cp, json_str(&d)); return 1; }
+            if let Some(c) = char::from_u32(cp) { if guard("get_value_from_char", || { let _ = IdentifierClass::default().get_value_from_char(c); let _ = FreeformClass::default().get_value_from_char(c); }).is_err() {
+                println!("{{\"found\":true,\"input\":{},\"detail\":\"PANIC in get_value_from_char\"}}", cp); return 1; } } }
             println!("{{\"found\":false,\"evaluated\":{}}}", n); 0 }
         // C08 per-code-point lemmas for usernames: lowercase of an IdentifierClass-valid character stays non-forbidden
         "lower_valid" => { let mut bad = Vec::new(); let mut n = 0u64;
